@@ -135,7 +135,8 @@ def run_shard(ctx):
     _exhaustive(ctx, "seg", SEG, *t["seg"])
     ctx.col.extra["exhaustive"] = True
     n, steps = t["walks"]
-    machine.run_walks(ctx, C02Oracle, n_walks=ctx.share(n), steps=steps, profile="history")
+    machine.run_walks(ctx, C02Oracle, n_walks=ctx.share(n), steps=steps, profile="history",
+                      cfg_kwargs={"allow_stray": True})
 
 
 def replay(obj, col):
